@@ -33,12 +33,17 @@ MANIFEST = dict(
          "C09_list_order, C09_string_order, C09_arg_order, C09_innermost_binding. C09_errors_partial: runtime errors of "
          "the reference are errors of the same kind on the machine (struct literals excluded, format specifiers assumed "
          "total); C09_no_stuck_partial / C09_no_stuck_on_error_partial: no panic on runs whose reference outcome is a "
-         "value or an error. NOT proved: absence of panics for ALL well-typed programs (needs the type system of C02 "
+         "value or an error. Cross-area composition (Props/C01C09.v): with the primitive operations instantiated by the "
+         "dimension-level arithmetic of the type-checker area (Dim/Run.v), the model machine running the model-compiled "
+         "program of the shared let/expression fragment ends with every global holding a quantity of exactly the "
+         "dimension the type-checker model inferred (C01_C09_composition_partial), and never panics "
+         "(C09_no_stuck_typed_fragment). NOT proved: absence of panics for ALL well-typed programs (needs the type system of C02 "
          "and a treatment of diverging runs, see design/vm.md). The two former findings (function values re-bound by a "
          "redefinition; silent truncation of 16 bit jump offsets) are repaired in numbat and kept as regression "
          "examples. The model is tied to the code on every run: the model compiler's output is compared instruction "
          "by instruction with the real compiler's (hook dump), and model machine / reference evaluator / "
-         "implementation results are compared on generated well-typed programs and multi-input sessions (with "
+         "implementation results are compared on generated well-typed programs (incl. dimension / base-unit definitions, "
+         "quantities with units, type(…)) and multi-input sessions (with "
          "failing inputs that must be rolled back); the reference evaluator is the oracle.",
     design_ref="DESIGN.md §6 C09, design/vm.md",
     note="Trusted: Coq kernel + vm_compute; the hand ports Compile.v/Machine.v (validated every run by the opcode-level "
@@ -51,12 +56,13 @@ MANIFEST = dict(
 THEOREMS = ["C09_compile_correct", "C09_reference_deterministic", "C09_no_stuck_partial", "C09_no_stuck_on_error_partial", "C09_errors_partial",
             "C09_expr_simulation", "C09_list_order", "C09_arg_order", "C09_string_order", "C09_field_order",
             "C09_innermost_binding"]
+COMPOSITION_THEOREMS = ["C01_C09_composition_partial", "C09_no_stuck_typed_fragment"]
 ALLOWED_AXIOMS = []
 FRAGMENT_OPCODES = ["LoadConstant", "GetLocal", "GetUpvalue", "GetLastResult", "Negate", "LogicalNeg", "Factorial",
                     "Add", "Subtract", "Multiply", "Divide", "Power", "LessThan", "GreaterThan", "LessOrEqual",
                     "GreatorOrEqual", "Equal", "NotEqual", "LogicalAnd", "LogicalOr", "JumpIfFalse", "Jump", "Call",
                     "FFICallFunction", "FFICallProcedure", "CallCallable", "JoinString", "BuildStructInstance",
-                    "AccessStructField", "BuildList", "Return"]   # ConvertTo: units are not modelled
+                    "AccessStructField", "BuildList", "Return", "PrintString"]   # ConvertTo / ApplyPrefix / SetUnitConstant: not modelled
 FUEL_REF = 600
 FUEL_MACH = 20000
 
@@ -597,6 +603,14 @@ class Gen:
         if self.cost > self.STMT_LIMIT // 2:
             return False
         c = r.random()
+        # (no Scalar-typed expressions: a zero literal makes the inferred type polymorphic, `forall A: Dim. A`)
+        tname = {B: "Bool", T: "String", tlist(B): "List<Bool>"}.get(t)
+        if tname and r.random() < 0.25:
+            # type(e): the expression is NOT evaluated, the inferred type is printed (PrintString)
+            self.src.append("type(%s)" % e)
+            self.coq.append("SType %s" % cstr("= " + tname))
+            self.features["type_proc"] += 1
+            return True
         if c < 0.7:
             self.src.append("print(%s)" % e)
             self.coq.append('SProc "print" [%s]' % ec)
@@ -849,6 +863,69 @@ def error_cases(rng):
     return cases
 
 
+def unit_cases(rng):
+    """programs with dimension / base unit definitions, quantities with units, type(…).
+    All displayed results are dimensionless, so the integer instance of the model (unit = 1) is
+    a faithful model of the magnitudes (base units only: no conversion factors)."""
+    D = "dimension Scalar = 1"
+    def sc(n):
+        return "EScalar %d%%Z" % n
+    def q(n, u):
+        return "(%d %s)" % (n, u), "EBin BMul (%s) (EUnit %s)" % (sc(n), cstr(u))
+    out = []
+    for _ in range(6):
+        k1, k2, k3, k4 = (rng.randrange(1, 9) for _ in range(4))
+        a, ac = q(k1, "m")
+        b, bc = q(k2, "s")
+        c3, c3c = q(k3, "m")
+        head = [("dimension L", "SDim"), ("dimension T", "SDim"),
+                ("unit m: L", 'SUnitBase "m"'), ("unit s: T", 'SUnitBase "s"'),
+                ("let a = %s" % a, 'SLet "a" (%s)' % ac), ("let b = %s" % b, 'SLet "b" (%s)' % bc)]
+        pool = [
+            ("type(a)", 'SType "= L"'),
+            ("type(((a * a) / b))", 'SType "= L² / T"'),
+            ("type([a, a])", 'SType "= List<L>"'),
+            ("fn sq(x: L) -> L^2 = (x * x)", 'SFn "sq" ["x"] [] (EBin BMul (EIdent "x") (EIdent "x"))'),
+            ("(sq(a) / (m * m))", 'SExpr (EBin BDiv (ECall "sq" [EIdent "a"]) (EBin BMul (EUnit "m") (EUnit "m")))'),
+            ("(((a + %s) / m) * (b / s))" % c3,
+             'SExpr (EBin BMul (EBin BDiv (EBin BAdd (EIdent "a") (%s)) (EUnit "m")) (EBin BDiv (EIdent "b") (EUnit "s")))' % c3c),
+            ("let a = (a * %d)" % k4, 'SLet "a" (EBin BMul (EIdent "a") (%s))' % sc(k4)),
+            ("((a / m) - 1)", 'SExpr (EBin BSub (EBin BDiv (EIdent "a") (EUnit "m")) (EScalar 1%Z))'),
+            ("fn g(x: L) -> L = (y + x) where y = (x * 2)",
+             'SFn "g" ["x"] [("y", EBin BMul (EIdent "x") (EScalar 2%Z))] (EBin BAdd (EIdent "y") (EIdent "x"))'),
+            ("(g(a) / m)", 'SExpr (EBin BDiv (ECall "g" [EIdent "a"]) (EUnit "m"))'),
+            ("(if (a < %s) then 1 else 0)" % c3, 'SExpr (ECond (EBin BLt (EIdent "a") (%s)) (EScalar 1%%Z) (EScalar 0%%Z))' % c3c),
+            ("(a == a)", 'SExpr (EBin BEq (EIdent "a") (EIdent "a"))'),
+            ("print((b / s))", 'SProc "print" [EBin BDiv (EIdent "b") (EUnit "s")]'),
+            ("unit ft: L", 'SUnitBase "ft"'),
+        ]
+        body, have = [], set()
+        for st in pool:
+            if rng.random() < 0.75:
+                src = st[0]
+                if ("sq(" in src and "fn sq" not in src and "sq" not in have) or \
+                   ("g(a)" in src and "g" not in have) or \
+                   ("ans" in src and not any(b0[1].startswith("SExpr") for b0 in body)):
+                    continue
+                if src.startswith("fn sq"):
+                    have.add("sq")
+                if src.startswith("fn g"):
+                    have.add("g")
+                body.append(st)
+        body.append(("((a / m) + (b / s))", 'SExpr (EBin BAdd (EBin BDiv (EIdent "a") (EUnit "m")) (EBin BDiv (EIdent "b") (EUnit "s")))'))
+        body.append(("(ans + 1)", 'SExpr (EBin BAdd (EIdent "ans") (EScalar 1%Z))'))
+        stmts = head + body
+        src = [D] + [x for x, _ in stmts]
+        coq = [y for _, y in stmts]
+        if rng.random() < 0.5:
+            sess = make_session(rng, src, coq)
+            if sess:
+                out.append(sess)
+                continue
+        out.append((src, coq))
+    return out
+
+
 def oversize_cases():
     """conditionals with a branch larger than 65535 bytes (3 bytes per list element):
     run on the implementation only, expected value known by construction"""
@@ -1075,6 +1152,12 @@ def known_match(src, kind):
 def run(chk):
     binary, _ = common.build_harness()
     proved = chk.prove("Props.C09", THEOREMS, ["theories/Props/C09.vo", "theories/VM/Exec.vo"], allowed=ALLOWED_AXIOMS)
+    # cross-area composition with the dimension checker model (Props/C01C09.v, VM/DimInstance.v)
+    failure = getattr(chk, "proof_failure", None)
+    proved2 = chk.prove("Props.C01C09", COMPOSITION_THEOREMS, ["theories/Props/C01C09.vo"], allowed=ALLOWED_AXIOMS)
+    if not proved2 or failure:
+        chk.proof_failure = failure or getattr(chk, "proof_failure", "?")
+    proved = proved and proved2
     chk.trusted += [
         "models VM/Compile.v (bytecode_interpreter.rs) and VM/Machine.v (vm.rs) are hand ports, validated on every run "
         "against the real compiler's bytecode (hook numbat::verif::vm::disassembly) and the real results",
@@ -1116,6 +1199,9 @@ def run(chk):
     for c in error_cases(chk.rng) + error_cases(chk.rng):
         cases.append(c)
         kinds.append("error-stream")
+    for c in unit_cases(chk.rng):
+        cases.append(c)
+        kinds.append("unit-stream")
     results = []
     B = 4000
     for i in range(0, len(cases), B):
